@@ -71,10 +71,45 @@ impl FilterSpec {
             _ => false,
         }
     }
+    /// mode 3: a *reloadable* filter - static answers (always/never) from the current of two configurations; whoever
+    /// flips it rebuilds the interest cache afterwards, and its hint follows the configuration in force
+    pub fn is_reloadable(&self) -> bool {
+        self.mode == 3
+    }
     /// The filter's verdict for (level 1..5, target index) in the given flip state.
     pub fn accept(&self, level: u8, target: u8, flipped: bool) -> bool {
-        let (thr, tg) = if flipped && self.is_dynamic_for(target) { (self.thr2, self.targets2) } else { (self.thr, self.targets) };
+        let (thr, tg) = if flipped && (self.is_reloadable() || self.is_dynamic_for(target)) { (self.thr2, self.targets2) } else { (self.thr, self.targets) };
         level <= thr && tg & (1 << target) != 0
+    }
+    /// most verbose level accepted in one flip state
+    pub fn max_accept_in(&self, flipped: bool) -> u8 {
+        let mut m = 0;
+        for t in 0..4u8 {
+            for l in 1..=5u8 {
+                if self.accept(l, t, flipped) {
+                    m = m.max(l);
+                }
+            }
+        }
+        m
+    }
+    /// the level a live collector with this filter needs from the global maximum in the given state
+    pub fn need_in(&self, flipped: bool) -> u8 {
+        if self.is_reloadable() {
+            self.max_accept_in(flipped)
+        } else {
+            self.max_accept()
+        }
+    }
+    pub fn hint_level_in(&self, flipped: bool) -> Option<u8> {
+        if !self.is_reloadable() {
+            return self.hint_level();
+        }
+        match self.hint {
+            0 => None,
+            1 => Some(self.max_accept_in(flipped)),
+            _ => Some((self.max_accept_in(flipped) + 1).min(5)),
+        }
     }
     /// most verbose level this filter can ever accept (0 = nothing)
     pub fn max_accept(&self) -> u8 {
@@ -197,7 +232,7 @@ impl Collect for RecCollect {
             Some(t) => {
                 if self.filter.is_dynamic_for(t) {
                     Interest::sometimes()
-                } else if self.filter.accept(lvl, t, false) {
+                } else if self.filter.accept(lvl, t, self.flipped.load(Ordering::SeqCst)) {
                     Interest::always()
                 } else {
                     Interest::never()
@@ -213,7 +248,7 @@ impl Collect for RecCollect {
         r
     }
     fn max_level_hint(&self) -> Option<LevelFilter> {
-        self.filter.hint_level().map(lf)
+        self.filter.hint_level_in(self.flipped.load(Ordering::SeqCst)).map(lf)
     }
     fn new_span(&self, attrs: &Attributes<'_>) -> Id {
         let id = self.next_id.fetch_add(1, Ordering::SeqCst);
